@@ -79,6 +79,9 @@ TrCloneFrom ==
 
 TrSer ==
   /\ IsEvent("ser") /\ NoPanic /\ Ev.g \in DOMAIN cls
+  \* the snapshot also exists as a serde_json::Value tree (what a generator inside a tagged enum or a flattened record
+  \* goes through), and comes back from it unchanged
+  /\ Has(Ev, "json_value_ok") => Expect("snapshot through a serde_json::Value tree and back", TRUE, Ev.json_value_ok)
   /\ snap' = Set(snap, Ev.g, IF Ev.supported THEN cls[Ev.g] ELSE 0) /\ UNCHANGED <<cls, prev, fresh>>
 TrDe ==
   /\ IsEvent("de") /\ NoPanic /\ Ev.g \in DOMAIN snap
